@@ -97,7 +97,7 @@ impl CanonicalRequest {
                     && parse_query(str_bytes(spec_decode(body_encoding(parts)->Some_0, body.data)->Some_0)) is None ==> r is Err && r->Err_0 is MalformedQueryString)
         }, //# C12 C13 name=undecodable_or_malformed_form_body_is_refused
         r is Err ==> (r->Err_0 is InvalidURIPath || r->Err_0 is MalformedQueryString || r->Err_0 is InvalidBodyEncoding), //# C13 name=stage_error_kinds
-        d6_ok(parts) && r is Ok ==> frp_ok(parts, body, options, r->Ok_0.0, r->Ok_0.1, r->Ok_0.2), //# C01 C09 C10 C11 C12 C15 name=canonical_request_is_that_of_the_request_as_received_and_request_passes_through
+        d6_ok(parts) && r is Ok ==> frp_ok(parts, body, options, r->Ok_0.0, r->Ok_0.1, r->Ok_0.2), //# C01 C09 C10 C11 C12 C15 C19 name=canonical_request_is_that_of_the_request_as_received_and_request_passes_through
 //@ bodystart
     let ghost parts0 = parts;
     let ghost body0 = body;
@@ -116,7 +116,7 @@ impl CanonicalRequest {
                             forall|k: String| #[trigger] vk_bm.contains_key(k) ==> vk_bm[k]@.len() > 0,
                             forall|k: String, i: int| vk_bm.contains_key(k) && 0 <= i < vk_bm[k]@.len() ==> well_escaped(str_bytes(#[trigger] vk_bm[k]@[i]@)),
                             itf.seq().len() == vk_bm.len(),
-                            qmap(query_parameters@) == merge_append(qmap(url_map), entries_qmap(itf.seq(), itf.index@)), //# C12 name=merged_prefix
+                            qmap(query_parameters@) == merge_append(qmap(url_map), entries_qmap(itf.seq(), itf.index@)), //# C12 C19 name=merged_prefix
                             itf.index@ == itf.seq().len() ==> qmap(query_parameters@) == merge_append(qmap(url_map), qmap(vk_bm)), //# C12 C18 name=all_body_parameters_merged_whatever_the_iteration_order
                             forall|k: String| #[trigger] query_parameters@.contains_key(k) ==> query_parameters@[k]@.len() > 0,
                             forall|k: String, i: int| query_parameters@.contains_key(k) && 0 <= i < query_parameters@[k]@.len() ==> well_escaped(str_bytes(#[trigger] query_parameters@[k]@[i]@)),
